@@ -47,7 +47,7 @@ int main(void)
             put((double)A_REAL_LN1_2); put((double)A_REAL_LN1_10); ok = 1;
         }
         R1(logabs) R1(abs2) R1(abs) R1(arg)
-        C1(conj) C1(neg) C1(inv)
+        C1(conj) C1(neg) C1(inv) C1(proj)
         C2(add) C2(sub) C2(mul) C2(div) C2(pow) C2(logb)
         CR(add_real) CR(add_imag) CR(sub_real) CR(sub_imag) CR(mul_real) CR(mul_imag) CR(div_real) CR(div_imag) CR(pow_real)
         C1(sqrt) C1(exp) C1(log) C1(log2) C1(log10)
